@@ -725,6 +725,12 @@ func isXMLSanitiser(p *Program, f *ssa.Function) bool {
 				}
 			}
 			if fromParam {
+				// a fast path that hands the argument back unchanged is sound only under a guard that
+				// has looked at every byte and found nothing the escaper would rewrite — control
+				// characters and non-ASCII bytes included, not just the five markup characters
+				if _, isPar := stripConv(rv).(*ssa.Parameter); isPar && guardedByFullScan(p, f, ret) {
+					continue
+				}
 				return false
 			}
 			// …and what comes out of the escaper is returned AS IS: a replace / regexp / trim applied
@@ -833,6 +839,64 @@ func rawXML(r *Run, innerToo bool) {
 			r.Check("raw-xml", shortName(top)+":value", ret.Pos(), san,
 				fmt.Sprintf("%s splices a data value into raw XML text; the value passes through %s, which is not an encoding/xml escaper: characters that are not legal in XML (e.g. U+0001) survive and make the part ill-formed", shortName(top), name))
 		}
+	}
+	// (1a) the same surgery written with a builder instead of ReplaceAllStringFunc: inside a function
+	//      that takes and returns raw XML bytes, every data value written into a string builder /
+	//      buffer must be the result of an encoding/xml escaper
+	for _, top := range p.ModFuncs() {
+		if top.Parent() != nil || top.Pkg == nil || top.Pkg.Pkg.Path() != pkgDoc {
+			continue
+		}
+		hasBytesParam, returnsBytes := false, false
+		for _, par := range top.Params {
+			if sl, ok := par.Type().Underlying().(*types.Slice); ok {
+				if b, ok := sl.Elem().Underlying().(*types.Basic); ok && b.Kind() == types.Byte {
+					hasBytesParam = true
+				}
+			}
+		}
+		for i := 0; i < top.Signature.Results().Len(); i++ {
+			if sl, ok := top.Signature.Results().At(i).Type().Underlying().(*types.Slice); ok {
+				if b, ok := sl.Elem().Underlying().(*types.Basic); ok && b.Kind() == types.Byte {
+					returnsBytes = true
+				}
+			}
+		}
+		if !hasBytesParam || !returnsBytes {
+			continue
+		}
+		idx := 0
+		allInstrs(top, func(in ssa.Instruction) {
+			c, ok := in.(*ssa.Call)
+			if !ok || len(c.Call.Args) < 2 {
+				return
+			}
+			switch calleeName(c) {
+			case "(*strings.Builder).WriteString", "(*bytes.Buffer).WriteString", "(*bytes.Buffer).Write", "(*strings.Builder).Write":
+			default:
+				return
+			}
+			v := c.Call.Args[1]
+			inserts := false
+			for x := range newSlicer(p).Slice(v).Vals {
+				if cc, ok := x.(*ssa.Call); ok && conv[staticCallee(cc)] {
+					inserts = true
+				}
+			}
+			if !inserts {
+				return
+			}
+			n++
+			idx++
+			san := false
+			name := "?"
+			if cc, ok := stripConv(v).(*ssa.Call); ok {
+				san = isXMLSanitiser(p, staticCallee(cc))
+				name = calleeName(cc)
+			}
+			r.Check("raw-xml", fmt.Sprintf("%s:value#%d", shortName(top), idx), c.Pos(), san,
+				fmt.Sprintf("%s writes a data value into the raw XML text it rebuilds; the value passes through %s, which is not an encoding/xml escaper: characters that are not legal in XML survive and make the part ill-formed", shortName(top), name))
+		})
 	}
 	// (1b) the substitution may be delegated: a function that handles raw XML bytes hands the text to
 	//      a module helper whose ReplaceAllStringFunc closure inserts data values without escaping.
@@ -1126,4 +1190,56 @@ func ruleNestedMatch(r *Run) {
 		}
 	}
 	r.Count("closing_tag_searches_in_loops", n)
+}
+
+// guardedByFullScan: the return is control dependent on the (negated) result of a module
+// predicate over the same string that loops over all its bytes and reports true for every byte
+// below 0x20, every byte above 0x7E and each of & < > " ' (six tests, all present).
+func guardedByFullScan(p *Program, f *ssa.Function, ret *ssa.Return) bool {
+	for _, c := range controlConds(ret) {
+		v := c
+		if no, ok := v.(*ssa.UnOp); ok && no.Op == token.NOT {
+			v = no.X
+		}
+		call, ok := v.(*ssa.Call)
+		if !ok {
+			continue
+		}
+		pred := staticCallee(call)
+		if pred == nil || !p.inModule(pred) || len(pred.Blocks) == 0 || len(naturalLoops(pred)) == 0 {
+			continue
+		}
+		lowCtl, highAscii := false, false
+		chars := map[int64]bool{}
+		allInstrs(pred, func(in ssa.Instruction) {
+			bo, ok := in.(*ssa.BinOp)
+			if !ok {
+				return
+			}
+			k, isC := constInt(bo.Y)
+			if !isC {
+				return
+			}
+			switch bo.Op {
+			case token.LSS:
+				if k == 0x20 {
+					lowCtl = true
+				}
+			case token.GTR:
+				if k == 0x7E {
+					highAscii = true
+				}
+			case token.GEQ:
+				if k == 0x7F || k == 0x80 {
+					highAscii = true
+				}
+			case token.EQL:
+				chars[k] = true
+			}
+		})
+		if lowCtl && highAscii && chars['&'] && chars['<'] && chars['>'] && chars['"'] && chars['\''] {
+			return true
+		}
+	}
+	return false
 }
